@@ -4,6 +4,9 @@ CONSTANTS
   MaxEdits = 2
   MaxVoices = 3
   InitVoices = 2
+  EditAt = {1, 3}
+  Live = FALSE
+  Frames = {1}
 INVARIANT CellsWellFormed
 INVARIANT Emit
 CHECK_DEADLOCK FALSE
